@@ -138,6 +138,14 @@ CHECKS = {
             "the reference Jacobi constant must be kept along every retained trajectory.",
             "base point = the orbit point minimising the angle (the statement allows any point of the orbit); orbits whose correction is rejected are counted, not failed.",
             "DESIGN.md C12"),
+    "C14": ("model_checking",
+            "stateless model checking of the map engine's thread pool on the implementation (virtual executor: all interleavings of workers' backend calls and completion orders), plus exhaustive configuration lattice for section / energy / returns and the prange kernel under the real and a virtual scheduler",
+            "ThreadPoolExecutor and as_completed of the centre-manifold engine are rebound to a virtual executor (engine/vexec.py) in which every worker is a real thread holding a baton and parking in front of each backend call; the explorer enumerates every interleaving and completion order for 2 workers x 3 iterations and "
+            "3 workers x 1 iteration, and preemption-bounded (1; thorough: unbounded / 2) for 3 workers x 2 iterations and 4 workers, replaying each schedule on the real engine and comparing the multiset of (state, time) rows with the serial result. Around it: section coordinate exactly 0, |H_cm-h0| <= 0.1 dt^2 on a dt ladder, points = projection "
+            "of states on the labelled plane, 1/2/3/5 workers give identical multisets, for 4 sections x {fixed 4,6,8; symplectic 2,4} x seeding strategies; backend.run on explicit seeds: each returned row is the first admissible return of its seed under an independent reference flow (Newton-refined), error <= 0.1 dt^2; "
+            "_poincare_map bitwise identical for threads 1..16 x chunksizes and conflict-free under the parx virtual prange scheduler.",
+            "scheduling points are the backend calls (the only shared objects touched by workers); p-section direction test is dt-dependent in the library (dq/dt ~ 0 at the crossing) so either crossing direction is accepted there; symplectic energy accuracy is bounded, not laddered.",
+            "DESIGN.md C14"),
 }
 
 NOT_YET = {
